@@ -167,7 +167,8 @@ Choices ==
          {[Node(0, "var") EXCEPT !.asg = <<<<"a", e>>>>] : e \in {Lit(1), Lit(2), Lit(3), Dbl("a"), RdV("a")}}
          \* a value that is already too long when it is assigned again: an attribute of an
          \* enclosing group (not limited itself), or a limit lowered after the assignment
-         \cup {[Node(0, "g") EXCEPT !.loc = <<<<"a", v>>>>] : v \in {2, 3}}
+         \* (0: the attribute is present with an EMPTY value - still a definition, which shadows)
+         \cup {[Node(0, "g") EXCEPT !.loc = <<<<"a", v>>>>] : v \in {0, 2, 3}}
          \cup {[Node(0, "config") EXCEPT !.loc = <<<<"vl", 1>>>>]}
          \cup {[Node(0, "loop") EXCEPT !.form = "count", !.cnt = c] : c \in {2, 3}}
          \cup {[Node(0, "leaf") EXCEPT !.rd = "a"]}
